@@ -308,6 +308,8 @@ namespace sqf::runtime
     private:
         runtime_conf m_configuration;
         std::chrono::system_clock::time_point m_runtime_timestamp;
+        // Start of the current run (execute call), what max_runtime is measured against
+        std::chrono::system_clock::time_point m_run_timestamp;
         bool m_runtime_error;
 
         std::chrono::system_clock::time_point m_created_timestamp;
@@ -333,6 +335,7 @@ namespace sqf::runtime
             m_evaluate_halt(false),
             m_configuration(config),
             m_runtime_timestamp(std::chrono::system_clock::now()),
+            m_run_timestamp(m_runtime_timestamp),
             m_runtime_error(false),
             m_created_timestamp(m_runtime_timestamp),
             m_confighost(),
@@ -348,6 +351,8 @@ namespace sqf::runtime
         sqf::runtime::runtime::runtime_conf& configuration() { return m_configuration; }
         std::chrono::system_clock::time_point runtime_timestamp() { return m_runtime_timestamp; }
         void runtime_timestamp_reset() { m_runtime_timestamp = std::chrono::system_clock::now(); }
+        std::chrono::system_clock::time_point run_timestamp() { return m_run_timestamp; }
+        bool max_runtime_reached() { return m_configuration.max_runtime != std::chrono::milliseconds::zero() && m_configuration.max_runtime + m_run_timestamp < std::chrono::system_clock::now(); }
 
         sqf::runtime::confighost& confighost() { return m_confighost; }
 
